@@ -25,18 +25,18 @@ export function* generate({ tier, seed }) {
   for (const f of listCorpus('tsx')) yield one(f.src, f.syntax, tier === 'quick' ? [{}, combos[31]] : combos.filter((_, i) => i % 3 === 0), `corpus|${f.name}`);
   for (const f of listFixtureInputs()) yield one(f.src, f.syntax, [f.options, { ...f.options, optimize: !f.options.optimize }, combos[rng.int(32)]], `fixture|${f.name}`);
   // 3. JSX embedded in arbitrary surrounding code
-  const nFuzz = tier === 'quick' ? 2500 : 60000;
+  const nFuzz = tier === 'quick' ? 12000 : 250000;
   for (let i = 0; i < nFuzz; i++) {
     const src = genModule(rng);
     yield one(src, rng.bool(0.15) ? 'tsx' : 'jsx', [randomOptions(rng)], `fuzz|${hashStr(src.slice(0, 80)) % 100000}`);
   }
-  const keep = tier === 'quick' ? 0.25 : 1;
+  const keep = tier === 'quick' ? 0.2 : 0.6;
   for (const g of C06.generate({ tier, seed })) { if (rng() < keep) yield { gid: `C09-${n++}`, src: g.src, syntax: 'jsx', feature: `ctx|${g.feature}`, want: WANT, variants: g.variants.slice(0, 1) }; }
   for (const g of C10.generate({ tier, seed })) { if (rng() < keep * 0.3) { const c = g.variants.find((v) => v.vid === 'composed'); yield { gid: `C09-${n++}`, src: c.src, syntax: 'jsx', feature: `compose|${g.feature}`, want: WANT, variants: [{ vid: 'v0', options: c.options }] }; } }
   for (const g of C14.generate({ tier, seed })) { if (g.gid.includes('-iso-') && rng() < keep * 2) yield { gid: `C09-${n++}`, src: g.src, syntax: g.syntax, feature: `typed|${g.feature}`, want: WANT, variants: g.variants.slice(0, 2) }; }
   // 4. token mutations of real-world JS (still JSX-free when they parse)
   const js = listCorpus('js');
-  const nMut = tier === 'quick' ? 300 : 5000;
+  const nMut = tier === 'quick' ? 1200 : 20000;
   for (let i = 0; i < nMut; i++) { const f = rng.pick(js); yield one(mutate(f.src, rng), f.syntax, [combos[rng.int(32)]], `mutjs|${f.name}|${i}`); }
 }
 
@@ -47,6 +47,7 @@ export async function check(group, records) {
     const base = { gid: group.gid, vid: v.vid, feature: `${group.feature}|${optLabel(v.options)}`, nontrivial: true };
     if (!rec || rec.status === 'missing') { out.push(inconclusive({ ...base, reason: 'no record' })); continue; }
     if (rec.status === 'parse_error' || rec.status === 'config_error') { out.push({ verdict: 'skip', ...base, reason: rec.status }); continue; }
+    if ((rec.status === 'panic' || rec.status === 'crash') && rec.baseline_survives === false) { out.push({ verdict: 'skip', ...base, reason: 'pipeline fails without the visitor too' }); continue; }
     if (rec.status !== 'ok') { out.push(inconclusive({ ...base, reason: `transform did not return (${rec.status}); owned by C08` })); continue; }
     const src = group.cases[v.vid].src;
     const fr = rec.frame || {};
